@@ -234,6 +234,8 @@ class C10World(World):
             out.append(dict(op, how="perturb"))
         if op.get("op") == "load" and op.get("how") != "full":
             out.append(dict(op, how="full"))
+        if op.get("target"):
+            o = dict(op); o.pop("target"); out.append(o)
         if op.get("op") == "load" and op.get("assign"):
             o = dict(op); o.pop("assign"); out.append(o)
         if op.get("op") == "fwdbwd" and op.get("dir") == "inverse":
@@ -250,6 +252,7 @@ class C10World(World):
             self.M.double()
             self.U.double()
         self.flip = cfg["nest"] in ("inv", "invcomp")
+        self.want = True           # the mode the caller asked for last (a fresh module is in training mode)
         self.dirty = False
         self.changes = 0
         self.hit_after_change = 0
@@ -347,6 +350,8 @@ class C10World(World):
         elif kind == "fwdbwd":
             op.update(x=data.seed30(), rows=data.pick([1, 2, 3]), dir=sched.pick(["forward", "inverse"]))
         elif kind in ("train", "eval", "double", "float"):
+            if kind in ("train", "eval") and self.cfg["nest"] != "bare" and sched.chance(0.3):
+                op["target"] = "leaf"
             if faulty and fault.chance(0.1):
                 op["interrupt"] = fault.randint(1, 6 * (8 if self.cfg.get("opcode") else 1))
         elif kind == "use_cache":
@@ -596,10 +601,14 @@ class C10World(World):
                 self.probes["dtype_change_with_filled_cache"] += 1
             if kind == "train" and any(flags):
                 self.seen_train_after_fill = True
-            fnM = {"train": self.M.train, "eval": self.M.eval, "double": self.M.double,
+            tM, tU = self.M, self.U
+            if kind in ("train", "eval") and op.get("target") == "leaf":
+                tM, tU = self.leaf, self.uleaf       # the mode switch is applied to the nested transform directly
+            fnM = {"train": tM.train, "eval": tM.eval, "double": self.M.double,
                    "float": self.M.float, "zero_grad": self.M.zero_grad}[kind]
-            fnU = {"train": self.U.train, "eval": self.U.eval, "double": self.U.double,
+            fnU = {"train": tU.train, "eval": tU.eval, "double": self.U.double,
                    "float": self.U.float, "zero_grad": self.U.zero_grad}[kind]
+            want_after = (kind == "train") if kind in ("train", "eval") else None
             errU = errM = None
             try:
                 fnU()
@@ -614,6 +623,9 @@ class C10World(World):
                 (self.faults if fired else self.faults_missed)["interrupt_in_mode_or_dtype_change"] += 1
                 if fired:
                     self.after_fault = True
+            if want_after is not None:
+                # a mode switch that was cut short tells the caller nothing: fall back on what the flags say
+                self.want = want_after if not fired else bool(self.M.training and self.leaf.training)
             if errM is not None and errU is None and not fired:
                 raise Violation("raises_only_when_cached", "%s(): %s: %s" % (kind, type(errM).__name__, str(errM)[:300]))
             if kind in ("double", "float"):
@@ -631,8 +643,10 @@ class C10World(World):
                 self.probes["requires_grad_toggled_with_filled_cache"] += 1
             log.add(kind)
         elif kind == "update":
-            if not self.M.training or not self.leaf.training:
-                log.add("update_skipped_not_training")   # the property restricts updates to training mode
+            if not self.want:
+                # the property restricts updates to training mode: the mode the caller last asked for (on the root or
+                # on the transform itself) - if a mode switch failed to reach the transform that is the code's problem
+                log.add("update_skipped_not_training")
             else:
                 self._update(op)
                 self._mark_change()
@@ -659,6 +673,7 @@ class C10World(World):
                 fresh.double()
             fresh.load_state_dict(self.load_bytes("ckpt"), strict=True)
             self.M, self.leaf = fresh, fleaf
+            self.want = True          # volatile: a fresh incarnation is in training mode
             self.faults["crash_restart"] += 1
             if any(flags):
                 self.probes["restart_with_filled_cache"] += 1
